@@ -31,6 +31,149 @@ PARTIAL = [
 ]
 TRUSTED_EXTRA = []
 
+# --------------------------------------------------------------------------
+# translator: loop constants of `FCPTPA.fit` -> lean/FDAModel/Generated/FcpLoop.lean
+# --------------------------------------------------------------------------
+import ast  # noqa: E402
+import os  # noqa: E402
+
+import common  # noqa: E402
+
+GEN_FILE = os.path.join(common.LEAN_DIR, "FDAModel", "Generated", "FcpLoop.lean")
+TRANSLATOR = dict(status="not run")
+
+
+class _Unrecognised(Exception):
+    pass
+
+
+def _name(node, ident):
+    return isinstance(node, ast.Name) and node.id == ident
+
+
+def _cmp(node, left, ops, right_pred):
+    """`left <op> right` with op in `ops` (dict class -> value); returns the value."""
+    if not (isinstance(node, ast.Compare) and len(node.ops) == 1 and len(node.comparators) == 1 and _name(node.left, left)):
+        raise _Unrecognised(f"comparison on {left}")
+    for cls, val in ops.items():
+        if isinstance(node.ops[0], cls):
+            if not right_pred(node.comparators[0]):
+                raise _Unrecognised(f"right-hand side of the comparison on {left}")
+            return val
+    raise _Unrecognised(f"operator of the comparison on {left}")
+
+
+def _const_times(node, ident):
+    """`k * ident` with a non-negative numeric literal k; returns k as Fraction."""
+    if (isinstance(node, ast.BinOp) and isinstance(node.op, ast.Mult) and isinstance(node.left, ast.Constant)
+            and isinstance(node.left.value, (int, float)) and not isinstance(node.left.value, bool) and _name(node.right, ident)):
+        return Fraction(node.left.value)
+    raise _Unrecognised(f"factor * {ident}")
+
+
+def parse_fcp_loop(path):
+    """Extract the comparison operators and factors of the iteration loop of `FCPTPA.fit`; any other
+    source shape raises `_Unrecognised` (no guessing)."""
+    tree = ast.parse(open(path).read())
+    cls = [n for n in tree.body if isinstance(n, ast.ClassDef) and n.name == "FCPTPA"]
+    if len(cls) != 1:
+        raise _Unrecognised("class FCPTPA")
+    fit = [n for n in cls[0].body if isinstance(n, ast.FunctionDef) and n.name == "fit"]
+    if len(fit) != 1:
+        raise _Unrecognised("FCPTPA.fit")
+    fors = [n for n in fit[0].body if isinstance(n, ast.For)]
+    if len(fors) != 1:
+        raise _Unrecognised("loop over the components")
+    body = fors[0].body
+    whiles = [k for k, n in enumerate(body) if isinstance(n, ast.While)]
+    if len(whiles) != 1:
+        raise _Unrecognised("while loop")
+    wh = body[whiles[0]]
+    out = {}
+    # while any(norm(v - v_old) / norm(v) > tolerance for …)
+    t = wh.test
+    if not (isinstance(t, ast.Call) and _name(t.func, "any") and len(t.args) == 1 and isinstance(t.args[0], ast.GeneratorExp)):
+        raise _Unrecognised("while condition is not any(<generator>)")
+    c = t.args[0].elt
+    if not (isinstance(c, ast.Compare) and len(c.ops) == 1 and isinstance(c.left, ast.BinOp) and isinstance(c.left.op, ast.Div)
+            and _name(c.comparators[0], "tolerance") and isinstance(c.ops[0], (ast.Gt, ast.GtE))):
+        raise _Unrecognised("while condition comparison")
+    out["cond_gt"] = isinstance(c.ops[0], ast.Gt)
+    # n_iter = n_iter + 1
+    incs = [n for n in wh.body if isinstance(n, ast.Assign) and len(n.targets) == 1 and _name(n.targets[0], "n_iter")]
+    if not (len(incs) == 1 and isinstance(incs[0].value, ast.BinOp) and isinstance(incs[0].value.op, ast.Add)
+            and _name(incs[0].value.left, "n_iter") and isinstance(incs[0].value.right, ast.Constant) and incs[0].value.right.value == 1):
+        raise _Unrecognised("n_iter increment")
+    ifs = [n for n in wh.body if isinstance(n, ast.If)]
+    if len(ifs) != 1:
+        raise _Unrecognised("if n_iter … max_iteration")
+    out["max_strict"] = _cmp(ifs[0].test, "n_iter", {ast.Gt: True, ast.GtE: False}, lambda r: _name(r, "max_iteration"))
+    if ifs[0].orelse or len(ifs[0].body) != 1 or not isinstance(ifs[0].body[0], ast.If):
+        raise _Unrecognised("nested adapt test")
+    inner = ifs[0].body[0]
+    if not (isinstance(inner.test, ast.BoolOp) and isinstance(inner.test.op, ast.And) and len(inner.test.values) == 2
+            and _name(inner.test.values[0], "adapt_tolerance")):
+        raise _Unrecognised("adapt_tolerance and …")
+    fac = {}
+    out["adapt_strict"] = _cmp(inner.test.values[1], "n_iter", {ast.Lt: True, ast.LtE: False},
+                               lambda r: fac.setdefault("f", _const_times(r, "max_iteration")) is not None)
+    if fac["f"].denominator != 1:
+        raise _Unrecognised("adapt factor is not an integer")
+    out["adapt_factor"] = int(fac["f"])
+    if not (len(inner.body) == 1 and isinstance(inner.body[0], ast.Assign) and _name(inner.body[0].targets[0], "tolerance")):
+        raise _Unrecognised("tolerance adaptation")
+    out["tol_factor"] = _const_times(inner.body[0].value, "tolerance")
+    forced = [n for n in inner.orelse if isinstance(n, ast.Assign)]
+    if not (len(forced) == 1 and _name(forced[0].targets[0], "vectors_old") and _name(forced[0].value, "vectors")):
+        raise _Unrecognised("forced exit")
+    # reset after the loop
+    resets = [n for n in body[whiles[0] + 1:] if isinstance(n, ast.If) and isinstance(n.test, ast.BoolOp)
+              and _name(n.test.values[0], "adapt_tolerance")]
+    if len(resets) != 1 or not isinstance(resets[0].test.op, ast.And) or len(resets[0].test.values) != 2:
+        raise _Unrecognised("tolerance reset")
+    out["reset_ge"] = _cmp(resets[0].test.values[1], "n_iter", {ast.GtE: True, ast.Gt: False}, lambda r: _name(r, "max_iteration"))
+    rb = resets[0].body
+    if not (len(rb) == 1 and isinstance(rb[0], ast.Assign) and _name(rb[0].targets[0], "tolerance") and _name(rb[0].value, "tolerance_old")):
+        raise _Unrecognised("tolerance reset body")
+    return out
+
+
+def lean_source(x):
+    b = lambda v: "true" if v else "false"  # noqa: E731
+    q = x["tol_factor"]
+    return f"""/- GENERATED by harness/c17.py:translate() from FDApy/preprocessing/dim_reduction/fcp_tpa.py:FCPTPA.fit — do not edit. -/
+import FDAModel.FCPTPA
+namespace FDA.Generated
+/-- while … `{'>' if x['cond_gt'] else '>='} tolerance`; `if n_iter {'>' if x['max_strict'] else '>='} max_iteration`; `n_iter {'<' if x['adapt_strict'] else '<='} {x['adapt_factor']} * max_iteration`; `tolerance = {q} * tolerance`; reset `n_iter {'>=' if x['reset_ge'] else '>'} max_iteration`. -/
+def fcpLoop : FDA.FCPTPA.LoopConsts :=
+  {{ maxStrict := {b(x['max_strict'])}, adaptStrict := {b(x['adapt_strict'])}, adaptFactor := {x['adapt_factor']}, tolFactor := ({q.numerator} : Rat) / {q.denominator}, resetGe := {b(x['reset_ge'])}, condGt := {b(x['cond_gt'])} }}
+end FDA.Generated
+"""
+
+
+def translate():
+    """Regenerate `Generated/FcpLoop.lean` from the working tree.  POLICY: an unrecognised source shape (a harmless
+    refactor) neither alarms nor fails — the last generated file is kept, the evidence says so and the correspondence
+    decides; only a successful translation whose proof (`C17.source_controller`) fails is a broken obligation."""
+    path = os.path.join(common.REPO, "FDApy", "preprocessing", "dim_reduction", "fcp_tpa.py")
+    try:
+        x = parse_fcp_loop(path)
+    except (_Unrecognised, SyntaxError, OSError, KeyError, IndexError, AttributeError) as e:
+        TRANSLATOR.update(status="translator: source shape not recognised, tie rests on the correspondence only", detail=str(e)[:120])
+        return
+    src = lean_source(x)
+    old = open(GEN_FILE).read() if os.path.exists(GEN_FILE) else None
+    if old != src:
+        os.makedirs(os.path.dirname(GEN_FILE), exist_ok=True)
+        with open(GEN_FILE, "w") as fh:
+            fh.write(src)
+    TRANSLATOR.update(status="translated", regenerated=(old != src), **{k: (str(v) if isinstance(v, Fraction) else v) for k, v in x.items()})
+
+
+def extra_coverage(cases, impls, models):
+    return dict(translator=dict(TRANSLATOR, file="lean/FDAModel/Generated/FcpLoop.lean", theorem="C17.source_controller"))
+
+
 TOLS = [1e-8, 1e-7, 1e-6, 1e-5, 1e-4, 1e-3, 1e-2, 1e-1, 3e-5, 0.05, 2.5e-7]
 MAXS = [0, 1, 1, 1, 2, 2, 3, 3, 4, 5, 6, 8, 10, 15, 20, 30]
 
@@ -254,6 +397,31 @@ def _fit_once(case, normalize, record, est=None):
         inits.append(tuple(np.array(v, copy=True) for v in out))
         return out
 
+    upd_calls, den_calls = [], []
+    orig_uv, orig_cd = fcp_tpa._update_vector, fcp_tpa._compute_denominator
+
+    def wrap_uv(data, vectors, penalty_matrix, alpha, denominator, formula):
+        out = orig_uv(data, vectors, penalty_matrix=penalty_matrix, alpha=alpha, denominator=denominator, formula=formula)
+        if record and len(upd_calls) < 6 and data.size <= 320:
+            m = len(vectors[0])
+            Om = np.zeros((m, m)) if np.isscalar(penalty_matrix) else np.array(penalty_matrix, dtype=float)
+            upd_calls.append(dict(mode={"i, j, kij -> k": 0, "i, j, ikj -> k": 1, "i, j, ijk -> k": 2}.get(formula, -1),
+                                  data=np.array(data, dtype=float).reshape(data.shape[0], -1).tolist(), a=np.array(vectors[1]).tolist(),
+                                  b=np.array(vectors[2]).tolist(), Om=Om.tolist(), alpha=float(alpha), d=float(denominator),
+                                  out=np.array(out).tolist()))
+        return out
+
+    def wrap_cd(a, alpha, penalty_matrix):
+        out = orig_cd(a, alpha, penalty_matrix)
+        if record and len(den_calls) < 6 and len(a) <= 20:
+            m = len(a)
+            Om = np.zeros((m, m)) if np.isscalar(penalty_matrix) else np.array(penalty_matrix, dtype=float)
+            den_calls.append(dict(a=np.array(a).tolist(), alpha=float(alpha), Om=Om.tolist(), out=float(out)))
+        return out
+
+    if not case.get("script"):
+        fcp_tpa._update_vector, fcp_tpa._compute_denominator = wrap_uv, wrap_cd
+    _fit_once.last_inner = (upd_calls, den_calls)
     fcp_tpa._update_components, fcp_tpa._initialize_vectors = wrap_u, wrap_i
     if est is None:
         est = fcp_tpa.FCPTPA(n_components=case["K"], normalize=normalize)
@@ -272,6 +440,7 @@ def _fit_once(case, normalize, record, est=None):
         n_warn = sum(1 for w in ws if "did not converge" in str(w.message))
     finally:
         fcp_tpa._update_components, fcp_tpa._initialize_vectors = orig_u, orig_i
+        fcp_tpa._update_vector, fcp_tpa._compute_denominator = orig_uv, orig_cd
     return est, fd, X, calls, inits, n_warn
 
 
@@ -324,6 +493,7 @@ def run_impl(case):
         est, fd, X, calls, inits, n_warn = _fit_once(case, False, True)
     except Runaway as e:
         return dict(runaway=str(e))
+    out["upd_calls"], out["den_calls"] = _fit_once.last_inner
     counts, ratios, units, ok, zero_resid, zero_contr = _group(case, X, calls, inits)
     out["zero_resid"] = zero_resid
     out["zero_contraction"] = bool(zero_contr)
@@ -450,11 +620,22 @@ def _mat(rows):
 def model_lines(case, impl):
     if "__crash__" in impl or "runaway" in impl:
         return []
+    # a tree with the proposed guard (`while values.any() and …`) skips the loop on an exactly zero residual: the
+    # convergence oracle handed to the controller is then false there (recorded as "n")
+    ratios = [["n"] if (zr and c == 0) else toks for toks, zr, c in zip(impl["ratios"], impl.get("zero_resid", [False] * len(impl["ratios"])), impl["counts"])]
     ctl = "ctl {} {} {} {} {}".format(
-        case["max"], 1 if case["adapt"] else 0, rs(F(case["tol"])), len(impl["ratios"]),
-        ";".join(",".join(_tok(r) for r in toks) for toks in impl["ratios"]),
+        case["max"], 1 if case["adapt"] else 0, rs(F(case["tol"])), len(ratios),
+        ";".join(",".join(_tok(r) for r in toks) for toks in ratios),
     )
     lines = [ctl]
+    for u in impl.get("upd_calls", []):
+        if u["mode"] >= 0 and all(np.isfinite(np.asarray(u[k], dtype=float)).all() for k in ("data", "a", "b", "Om", "out")) and math.isfinite(u["d"]) and math.isfinite(u["alpha"]):
+            lines.append("upd {} {} {} {} {} {} {} {} {} {} {}".format(
+                u["mode"], case["n"], case["m1"], case["m2"], rs(F(u["alpha"])), _mat(u["Om"]), rs(F(u["d"])), _mat(u["data"]),
+                ",".join(rs(F(x)) for x in u["a"]), ",".join(rs(F(x)) for x in u["b"]), ",".join(rs(F(x)) for x in u["out"])))
+    for dcall in impl.get("den_calls", []):
+        if np.isfinite(np.asarray(dcall["a"], dtype=float)).all() and math.isfinite(dcall["out"]):
+            lines.append("den {} {} {}".format(rs(F(dcall["alpha"])), _mat(dcall["Om"]), ",".join(rs(F(x)) for x in dcall["a"])))
     K = impl["Kf"]
     if K == 0:
         return lines
@@ -488,7 +669,11 @@ def _pm(s):
 
 
 def parse_model(case, outs):
-    m = dict(ctl=outs[0])
+    outs = list(outs)
+    upd = [o[2:] for o in outs if o.startswith("U ")]
+    den = [o[2:] for o in outs if o.startswith("D ")]
+    outs = [o for o in outs if not o.startswith(("U ", "D "))]
+    m = dict(ctl=outs[0], upd=upd, den=den)
     if len(outs) > 1:
         f = outs[1].split(" ")
         if len(f) == 7:
@@ -515,6 +700,27 @@ def compare(case, impl, model):
             ds.append(f"update calls per component: impl {impl['counts']} vs controller {mc}")
         if Fraction(ctl[2]) != F(case["tol"]):
             ds.append(f"controller ends with tolerance {ctl[2]} instead of the initial {case['tol']}")
+    # inside `_update_components`: recorded `_update_vector` calls solve their normal equations (backward error),
+    # `_compute_denominator` is aᵀ(a + αΩa)
+    sent = [u for u in impl.get("upd_calls", []) if u["mode"] >= 0 and all(np.isfinite(np.asarray(u[k], dtype=float)).all() for k in ("data", "a", "b", "Om", "out")) and math.isfinite(u["d"]) and math.isfinite(u["alpha"])]
+    for u, ans in zip(sent, model.get("upd", [])):
+        parts = ans.split(" ")
+        if len(parts) != 2:
+            ds.append(f"model answer to upd: {ans[:60]}")
+            break
+        res, sc = _pv(parts[0]), _pv(parts[1])
+        for i, (r, z) in enumerate(zip(res, sc)):
+            if abs(r) > Fraction(1, 10 ** 9) * z + Fraction(1, 10 ** 300):
+                ds.append(f"_update_vector (mode {u['mode']}): output does not solve (I+αΩ)(d·out) = einsum(…): residual[{i}] = {float(r)!r}, Σ|terms| = {float(z)!r}")
+                break
+    sentd = [d for d in impl.get("den_calls", []) if np.isfinite(np.asarray(d["a"], dtype=float)).all() and math.isfinite(d["out"])]
+    for dcall, ans in zip(sentd, model.get("den", [])):
+        q = Fraction(ans)
+        a = np.abs(np.asarray(dcall["a"], dtype=float))
+        scale = float(a @ a + abs(dcall["alpha"]) * (a @ np.abs(np.asarray(dcall["Om"], dtype=float)) @ a)) + 1e-300
+        if not close(dcall["out"], q, scale, 1e-9):
+            ds.append(f"_compute_denominator: impl {dcall['out']!r} vs exact {float(q)!r}")
+            break
     if not impl["grouping_ok"]:
         ds.append("recorded update calls do not chain as (residual, vectors) of consecutive components")
     if "coef" not in model:
